@@ -1070,6 +1070,7 @@ class FileHistory(Suite):
             st.just(['get']), st.just(['get']), st.just(['get_ims_echo']), st.just(['get_ims_echo']),
             st.tuples(st.just('rewrite'), st.integers(0, 40), st.sampled_from([1, 2, 60, 86400])).map(list),
             st.just(['delete']), st.tuples(st.just('get_range'), st.integers(0, 5)).map(list),
+            st.tuples(st.just('remount'), st.booleans()).map(list),
         )
         return st.builds(lambda stack, ops: {'stack': stack, 'ops': ops}, st.sampled_from(RANGE_STACKS),
                          st.lists(op, min_size=2, max_size=9))
@@ -1090,9 +1091,34 @@ class FileHistory(Suite):
         echoed = None  # (header value, mtime it stood for)
         changed_after_echo = False
         n = 0
+        roots = [sb.root, os.path.join(sb.base, 'root-alt')]
+        cur = 0
+        paths = [path, os.path.join(roots[1], rel)]
         try:
             for op in case['ops']:
                 k = op[0]
+                if k == 'remount':
+                    # the prefix is registered again for the OTHER directory tree (most recent registration wins): from
+                    # now on only that tree may be served; the file left behind in the previous tree keeps its old bytes
+                    cur = 1 - cur
+                    app.add_static_route(PREFIX, roots[cur])
+                    path = paths[cur]
+                    os.makedirs(os.path.dirname(path), exist_ok=True)
+                    n += 1
+                    t += 5
+                    if op[1]:
+                        data = (b'tree-%d-version-%d:' % (cur, n)) + bytes(range(48, 48 + n % 9))
+                        with open(path, 'wb') as fh:
+                            fh.write(data)
+                        os.utime(path, ns=(t * 10**9, t * 10**9))
+                        exists = True
+                    else:
+                        if os.path.exists(path):
+                            os.unlink(path)
+                        exists = False
+                    if echoed is not None:
+                        changed_after_echo = True
+                    continue
                 if k == 'rewrite':
                     n += 1
                     t += op[2]
@@ -1138,8 +1164,9 @@ class FileHistory(Suite):
                 if res.code in (200, 206) and lm:
                     echoed = (lm, t)
         finally:
-            if os.path.exists(path):
-                os.unlink(path)
+            for pth in paths:
+                if os.path.exists(pth):
+                    os.unlink(pth)
         return Info(changed_after_echo, [stack] + sorted(set('op:' + o[0] for o in case['ops']))
                     + (['file_changed_after_validator_was_issued'] if changed_after_echo else []))
 
